@@ -33,8 +33,11 @@ func runC15(c *core.Ctx) {
 	h.replyRPCCompletes("C15.4c rpc-completion")
 	h.leaderReleaseCleansUp("C15.4d leadership-end", "queue", "closed-error", "update-channel")
 	h.queueDiscipline("C15.4e client-queue")
+	h.oneSnapshotAtATime("C15.4f one-snapshot-at-a-time")
+	h.transferTimeoutAnswers("C15.4g transfer-timeout-answers")
 	c.Clause("C15.5 shutdown can make progress: ordering of Serve's epilogue, single closer of Raft.close")
 	h.shutdownOrder("C15.5 shutdown")
+	h.stateDriver("C15.5b state-driver")
 	c.Clause("C15.6 panic conversion routes through recoverErr")
 	h.panicConversion("C15.6 panic-conversion")
 	h.unexpectedErrStops("C15.6b unexpected-error-stops")
@@ -470,6 +473,75 @@ func (h H) taskTypestate(rule string) {
 		h.C.Check(rule+" reply-or-hand-off", h.name(fn), r.OK, h.fpos(fn), "a path returns without answering the task or handing it on (the submitter would wait forever): "+r.Witness)
 	}
 	h.C.Floor(rule+" (task-receiving functions)", len(specs), 10)
+	// ... and answers it at most once: no direct reply is reachable from
+	// another direct reply to the same task (task.reply closes the task's
+	// channel; a second reply panics the goroutine that sends it)
+	for _, s := range specs {
+		fn := h.fn(s.fn)
+		if s.param >= len(fn.Params) {
+			continue
+		}
+		derived := derivedFrom(fn, fn.Params[s.param])
+		var replies []ssa.Instruction
+		core.Instrs(fn, func(in ssa.Instruction) {
+			c, ok := in.(*ssa.Call)
+			if !ok {
+				return
+			}
+			com := c.Common()
+			if com.IsInvoke() && derived[com.Value] && com.Method.Name() == "reply" {
+				replies = append(replies, in)
+				return
+			}
+			if callee := com.StaticCallee(); callee != nil && callee.Name() == "reply" && len(com.Args) > 0 && derived[com.Args[0]] {
+				replies = append(replies, in)
+			}
+		})
+		bad := ""
+		for _, a := range replies {
+			// blocks reachable after a
+			seen := map[*ssa.BasicBlock]bool{}
+			var stack []*ssa.BasicBlock
+			for i := range a.Block().Succs {
+				if core.FeasibleSucc(a.Block(), i) {
+					stack = append(stack, a.Block().Succs[i])
+				}
+			}
+			later := false
+			for _, in := range a.Block().Instrs {
+				if in == a {
+					later = true
+					continue
+				}
+				if later {
+					for _, b := range replies {
+						if b == in {
+							bad = fmt.Sprintf("%s and again %s", h.pos(a), h.pos(b))
+						}
+					}
+				}
+			}
+			for len(stack) > 0 {
+				b := stack[len(stack)-1]
+				stack = stack[:len(stack)-1]
+				if seen[b] {
+					continue
+				}
+				seen[b] = true
+				for i := range b.Succs {
+					if core.FeasibleSucc(b, i) {
+						stack = append(stack, b.Succs[i])
+					}
+				}
+			}
+			for _, b := range replies {
+				if seen[b.Block()] {
+					bad = fmt.Sprintf("%s and again %s", h.pos(a), h.pos(b))
+				}
+			}
+		}
+		h.C.Check(rule+" answered-at-most-once", h.name(fn), bad == "", h.fpos(fn), "a task can be answered twice on one path: "+bad)
+	}
 	// replyRPC: rpc.done is closed on every path, before a possible panic
 	rr := h.fn("raft:(*Raft).replyRPC")
 	rfi := h.P.Info(rr)
